@@ -189,7 +189,9 @@ def _range(I, a, k):
         n = z3.If(sp > st, (sp - st + step - 1) / step, z3.IntVal(0))
     else:
         n = z3.If(sp < st, (st - sp - step - 1) / (-step), z3.IntVal(0))
-    return SIter(z3.simplify(n), lambda j: wrap(st + j * step))
+    sit = SIter(z3.simplify(n), lambda j: wrap(st + j * step))
+    sit.as_array = lambda: A.arange(start, stop, step)
+    return sit
 
 
 @model(builtins.enumerate)
@@ -284,6 +286,10 @@ def _list(I, a, k):
     if a and isinstance(a[0], SIter):
         n = A.conc(a[0].length)
         if n is None:
+            if getattr(a[0], "as_array", None) is not None:
+                # list(range(a, b)) of symbolic length: represented by the equivalent integer array
+                # (same len(), indexing and use as an index; list-only operations are not modelled)
+                return a[0].as_array()
             raise Unsupported("list() of an iterable of symbolic length")
         return [a[0].item(z3.IntVal(j)) for j in range(n)]
     if a and isinstance(a[0], SArr):
@@ -807,6 +813,8 @@ def _npsum(I, a, k):
     x = A.as_sarr(a[0])
     axis = k.get("axis", a[1] if len(a) > 1 else None)
     dt = np.dtype("int64") if x.dtype.kind in "biu" else x.dtype
+    if x.ndim == 0:
+        return _unbox(A.astype(x, dt))
     return _unbox(A.reduce_axis(x, axis, "sum", dt, None))
 
 
@@ -945,3 +953,47 @@ def _unpackbits(I, a, k):
 def I_raise(e):
     from .interp import PyRaise
     return PyRaise(e)
+
+
+@model(np.lexsort)
+def _lexsort(I, a, k):
+    """A-NP-SPEC: lexsort(keys) is the stable permutation sorting by the LAST key first"""
+    if not _anysym(a, k):
+        return NotImplemented
+    keys = a[0]
+    if isinstance(keys, (tuple, list)):
+        ks = [A.as_sarr(x) for x in keys]
+        n = ks[0].shape[0]
+        snaps = [x.snapshot() for x in ks]
+        key = lambda r, i: snaps[r]((i,))     # noqa
+        nk = len(ks)
+    else:
+        keys = A.as_sarr(keys)
+        if keys.ndim != 2 or not isinstance(keys.shape[0], int):
+            raise Unsupported("lexsort keys must be (nkeys, n) with a concrete number of keys")
+        nk = keys.shape[0]
+        n = keys.shape[1]
+        s = keys.snapshot()
+        key = lambda r, i: s((z3.IntVal(r), i))     # noqa
+    nt = A.T(n)
+    p = z3.Function(fresh_name("perm"), z3.IntSort(), z3.IntSort())
+    pinv = z3.Function(fresh_name("perminv"), z3.IntSort(), z3.IntSort())
+    i, j, i2 = z3.Int(fresh_name("i")), z3.Int(fresh_name("j")), z3.Int(fresh_name("i"))
+
+    def lex_le(x, y):
+        # last key is primary; ties broken by original position (stability)
+        t = x < y
+        for r in range(nk):
+            t = z3.Or(key(r, x) < key(r, y), z3.And(key(r, x) == key(r, y), t))
+        return t
+    A.note_fact(z3.ForAll([i], z3.Implies(z3.And(i >= 0, i < nt), z3.And(p(i) >= 0, p(i) < nt, pinv(p(i)) == i)), patterns=[p(i)]),
+                z3.ForAll([j], z3.Implies(z3.And(j >= 0, j < nt), z3.And(pinv(j) >= 0, pinv(j) < nt, p(pinv(j)) == j)), patterns=[pinv(j)]),
+                z3.ForAll([i, i2], z3.Implies(z3.And(i >= 0, i < i2, i2 < nt), lex_le(p(i), p(i2))), patterns=[z3.MultiPattern(p(i), p(i2))]))
+    out = SArr(np.dtype("int64"), (A.dim(nt),), lambda idx: p(idx[0]))
+    out.inverse = lambda x: pinv(x)
+    c = A.cur()
+    if c is not None:
+        if not hasattr(c, "sort_log"):
+            c.sort_log = []
+        c.sort_log.append({"perm": p, "inv": pinv, "n": nt, "key": key, "nk": nk})
+    return out
